@@ -306,8 +306,17 @@ def _validate_chunk(work, k, lines):
                  "tlc": "\n".join(r["out"].splitlines()[-80:]), "spec": {}}], r
     if not fin:
         raise vlib.Broken("trace validation did not finish:\n" + r["out"][-3000:])
-    # a trace is accepted iff some branch of the specification consumed its last line
-    done = {d["t"] for d in vlib.tlc_prints(r["out"], "DONE")}
+    # A trace is explained iff some branch of the specification consumed its last line; the branch may have had to
+    # re-synchronise at the end of scans the specification does not allow (deviations).  Take the branch with the
+    # fewest deviations; a trace no branch finishes is rejected at the deepest line reached.
+    done = {}
+    for d in vlib.tlc_prints(r["out"], "DONE"):
+        cur = done.get(d["t"])
+        if cur is None or len(d["devs"]) < len(cur):
+            done[d["t"]] = d["devs"]
+    devs = {}
+    for d in vlib.tlc_prints(r["out"], "DEV"):
+        devs.setdefault((d["t"], d["n"]), []).append(d)
     dead = {}
     for d in vlib.tlc_prints(r["out"], "DEAD"):
         cur = dead.get(d["t"])
@@ -318,11 +327,26 @@ def _validate_chunk(work, k, lines):
     rejs = []
     for t in sorted({ln["t"] for ln in lines}):
         if t in done:
+            for n_ in done[t]:
+                alts = devs.get((t, n_), [])
+                if not alts:
+                    raise vlib.Broken("deviation record missing for trace %s line %s" % (t, n_))
+                rej = dict(alts[0])
+                rej["alts"] = alts
+                rejs.append(rej)
             continue
         if t not in dead:
             raise vlib.Broken("trace %s neither accepted nor rejected by TLC" % t)
         rej = dict(dead[t][0])
         rej["alts"] = dead[t]       # the same line reached with different attributions of ambiguous receipt lookups
+        # deviations recorded on the way (any branch) are reported as well
+        seen_n = set()
+        for (tt, n_), alts in sorted(devs.items()):
+            if tt == t and n_ < rej["n"] and n_ not in seen_n:
+                seen_n.add(n_)
+                x = dict(alts[0])
+                x["alts"] = alts
+                rejs.append(x)
         rejs.append(rej)
     return rejs, r
 
@@ -340,17 +364,25 @@ def validate(work, lines, parallel=4, chunk=600):
     return rejs, r
 
 
+# How much a broken rule needs an implementation to do something without any trigger (used only to choose
+# between readings of an ambiguous scan): deleting an entry nothing was asked about is the least plausible.
+IMPLAUSIBLE = {"scan/dropped-without-lookup": 3, "scan/dropped-before-depth": 3, "scan/dropped-unexplained": 3,
+               "scan/deep-entry-not-looked-up": 2}
+
+
 def best_signature(rej, line, prev):
-    """The deepest line may have been reached by several branches (different attributions of ambiguous lookups);
-    report the reading that needs the fewest broken rules."""
+    """The deepest line may have been reached by several branches (different attributions of receipt lookups that
+    carry only a tx hash shared by several pending entries).  Report the most plausible reading: the one whose
+    broken rules all have a trigger in the observed calls, then the one with the fewest broken rules."""
     best = None
     for alt in rej.get("alts") or [rej]:
         sig = signature(alt, line, prev)
-        sigs = sig if isinstance(sig, list) else [sig]
-        cand = (len(sigs), sorted(sigs), alt)
-        if best is None or cand[:2] < best[:2]:
+        sigs = sorted(sig if isinstance(sig, list) else [sig])
+        w = [IMPLAUSIBLE.get(x, 1) for x in sigs]
+        cand = ((max(w), sum(w), sigs), alt)
+        if best is None or cand[0] < best[0]:
             best = cand
-    return best[1], best[2]
+    return best[0][2], best[1]
 
 
 # ------------------------------------------------------------------ attribution
